@@ -2174,7 +2174,6 @@ def normalise_module(tree: ast.Module):
     _inline_vararg_forwarders(tree)
     _success_flag_finally(tree)
     _LoopPrefixSkip().visit(tree)
-    _BytesIOWith().visit(tree)
     _merge_private_bases(tree)
     _drop_overload_stubs(tree)
     if any(isinstance(st, (ast.Import, ast.ImportFrom)) and any("suppress" in (a.name, a.asname) or a.name == "contextlib" for a in st.names) for st in tree.body):
@@ -2189,6 +2188,8 @@ def normalise_module(tree: ast.Module):
     _n2.NT_NAMES.clear()
     _n2.NT_NAMES.update(nts)
     desugar_module(tree)
+    _BytesIOWith().visit(tree)      # after desugar_module: its scratch-row replay knows the `with BytesIO() as row` spelling
+    ast.fix_missing_locations(tree)
     EXTRA_PURE.clear()
     EXTRA_PURE.update(nts)
     CLASS_NAMES.clear()
